@@ -19,7 +19,7 @@ def prof(seed):
 
 def relevant(a):
     k = a['key']
-    return not a.get('cont') and ('watch' in k or 'always' in k or 'created' in a.get('what', '') or a['cls'] in ('multi', 'exit'))
+    return not a.get('cont') and ('watch' in k or 'always' in k or 'created' in a.get('what', '') or a['cls'] in ('multi', 'exit', 'ifcreate-existing'))
 
 
 def hook(hr, step, op, entry, anoms, ctx):
@@ -28,9 +28,18 @@ def hook(hr, step, op, entry, anoms, ctx):
         hr._ifc_done = True
         common.write_file(os.path.join(hr.top, 'ifc_exists.do'), 'echo x > present\nredo-ifcreate present\necho never > $3\n')
         common.write_file(os.path.join(hr.top, 'ifc_absent.do'), 'redo-ifcreate not_there_$$\necho ok > $3\n')
+        # the same from a script that has changed directory: the path is the script's, relative to where it stands now
+        common.write_file(os.path.join(hr.top, 'ifc_cd_exists.do'), 'mkdir -p ifcd\necho x > ifcd/present2\ncd ifcd\nredo-ifcreate present2\necho never > $3\n')
+        common.write_file(os.path.join(hr.top, 'ifc_cd_absent.do'), 'echo x > here_only\nmkdir -p ifcd2\ncd ifcd2\nredo-ifcreate here_only\ncd ..\necho ok > $3\n')
         r1 = hr.redo(['redo-ifchange', 'ifc_exists'])
         r2 = hr.redo(['redo-ifchange', 'ifc_absent'])
+        r3 = hr.redo(['redo-ifchange', 'ifc_cd_exists'])
+        r4 = hr.redo(['redo-ifchange', 'ifc_cd_absent'])
         out = []
+        if r3.rc == 0:
+            out.append(Anomaly(cls='ifcreate-existing', key='ifcreate-on-existing-path-accepted:after-cd', what='a script in another directory (cd ifcd) declared redo-ifcreate for a file that exists there; exit 0'))
+        if r4.rc != 0:
+            out.append(Anomaly(cls='ifcreate-existing', key='ifcreate-on-absent-path-rejected:after-cd', what='redo-ifcreate of a path that is absent where the script stands (but exists where it started) failed: %s' % r4.err[-200:]))
         hr.stats['ifcreate_error_probes'] = hr.stats.get('ifcreate_error_probes', 0) + 1
         if r1.rc == 0:
             out.append(Anomaly(cls='ifcreate-existing', key='ifcreate-on-existing-path-accepted', what='redo-ifcreate of an existing file exited 0'))
@@ -56,7 +65,7 @@ RULE = ('graphs mixing redo-ifcreate watchers (standard idiom: ifchange if the p
         'dependents and ordinary declarations at depth 0-3; histories create / delete / edit the watched paths across runs (and let a watched path appear while the script that declared it is still running, after its redo-ifcreate) with '
         'unrelated edits in between, -j1..8. Oracle: executed multiset per command vs reference model (watcher runs at the first '
         'redo-ifchange after the path exists and not before; always-target exactly once per top-level run that needs it); '
-        'plus: redo-ifcreate on an existing path must fail, on an absent path must succeed. Non-trivial: a rebuild caused by a '
+        'plus: redo-ifcreate on an existing path must fail, on an absent path must succeed, also from a script that has changed directory (the path counts from where the script stands). Non-trivial: a rebuild caused by a '
         'created path or by redo-always was observed and >=3 commands. Distinct: (graph shape, op sequence).')
 ASSUME = ['reference model rvlib/model.py', 'anomalies are counted here only if the target involved is an ifcreate watcher / always node (or a command-level exit mismatch)']
 
